@@ -12,6 +12,7 @@ pub mod props;
 pub mod pure;
 pub mod rec;
 pub mod reference;
+pub mod replay;
 pub mod scalar;
 pub mod space;
 
@@ -40,21 +41,22 @@ pub fn main_with(entries: Vec<entry::Entry>, cat: mc_desc::Catalogue) -> i32 {
     let threads = std::env::var("VERIF_THREADS").ok().and_then(|s| s.parse().ok()).unwrap_or(16);
     let e = engine::Engine { cat: &cat, entries: &entries, tier, threads };
     match args[1].as_str() {
+        "replay" => replay::replay(&e, args.get(2).map(|s| s.as_str()).unwrap_or("")),
         "stats" => {
             println!("roots {} items {}", cat.roots.len(), cat.items.len());
             0
         }
-        "C01" => props::run_c01(&e),
-        "C02" => props::run_c02(&e),
-        "C03" => props::run_c03(&e),
-        "C04" => props::run_c04(&e),
-        "C06" => props::run_c06(&e),
-        "C07" => props::run_c07(&e),
-        "C08" => props::run_c08(&e),
-        "C09" => props::run_c09(&e),
-        "C10" => props::run_c10(&e),
-        "C11" => props::run_c11(&e),
-        "C12" => props::run_c12(&e),
+        "C01" => props::run_catalogue(&e, "C01"),
+        "C02" => props::run_catalogue(&e, "C02"),
+        "C03" => props::run_catalogue(&e, "C03"),
+        "C04" => props::run_catalogue(&e, "C04"),
+        "C06" => props::run_catalogue(&e, "C06"),
+        "C07" => props::run_catalogue(&e, "C07"),
+        "C08" => props::run_catalogue(&e, "C08"),
+        "C09" => props::run_catalogue(&e, "C09"),
+        "C10" => props::run_catalogue(&e, "C10"),
+        "C11" => props::run_catalogue(&e, "C11"),
+        "C12" => props::run_catalogue(&e, "C12"),
         "C14" => messages::run_c14(&e),
         "C15" => invariance::run_c15(&e),
         "deep-child" => deep::child(&e, args.get(2).map(|s| s.as_str()).unwrap_or("")),
